@@ -114,6 +114,10 @@ func raceRun(a []string) (string, []string) {
 			ids = strings.Fields(strings.Trim(f[1], "[]"))
 			continue
 		}
+		if len(f) == 2 && f[0] == "clash" {
+			direct = append(direct, f[1])
+			continue
+		}
 		if len(f) != 3 {
 			continue
 		}
@@ -125,13 +129,8 @@ func raceRun(a []string) (string, []string) {
 			direct = append(direct, "action "+f[1]+" panicked: "+truncate(f[2], 120))
 		}
 	}
-	seen := map[string]bool{}
-	for _, id := range ids {
-		if seen[id] {
-			direct = append(direct, "duplicate RPC request id "+id)
-		}
-		seen[id] = true
-	}
+	// (a request that is retried may carry its own id again; what must not happen is one id for two
+	// different requests: the transport reports those as clashes)
 	nrpc := 0
 	for i, g := 0, atoiOr(a[0], 0); i < g; i++ {
 		ops := strings.Split(a[3], ",")
@@ -142,6 +141,8 @@ func raceRun(a []string) (string, []string) {
 			nrpc += 40
 		case "rpcbad":
 			nrpc += 1
+		case "rpcbusy":
+			nrpc += 2
 		}
 	}
 	if len(ids) != nrpc {
@@ -187,6 +188,8 @@ func runC19(r *Runner) string {
 		{"xkey"},
 		{"rpcstorm"},
 		{"rpcbad", "rpc", "rpcstorm"},
+		{"rpcbusy"},
+		{"rpcbusy", "rpc", "rpcstorm"},
 		{"storm"},
 		{"mnemonic"},
 		{"txparse", "sighash"},
